@@ -869,6 +869,20 @@ def call_builtin(eng, st, name, args, kwargs, node):
     return abs(x) if isinstance(x, (int, float)) else z3.If(x >= 0, x, -x)
   if name in ("min", "max"):
     xs = args
+    if len(args) == 1 and isinstance(args[0], Ptr) and isinstance(st.deref(args[0]), HList) and st.deref(args[0]).symbolic:
+      # min/max of a symbolic list: a fresh value that bounds every element and is attained (empty -> ValueError)
+      o = st.deref(args[0])
+      eng.implicit(st, "ValueError", to_z3(o.length) > 0, node, "min/max of empty sequence")
+      t = parse_type(o.elem_t)
+      if t not in ("int", "real"):
+        raise Unsupported("min/max of a symbolic list of non-numbers")
+      m = z3.Int(V.fresh_name(name)) if t == "int" else z3.Real(V.fresh_name(name))
+      j = z3.Int(V.fresh_name("mj"))
+      w = z3.Int(V.fresh_name("mw"))
+      e = z3.Select(o.rep, j)
+      st.assume(z3.ForAll([j], z3.Implies(z3.And(j >= 0, j < to_z3(o.length)), (m <= e) if name == "min" else (m >= e))),
+                w >= 0, w < to_z3(o.length), z3.Select(o.rep, w) == m)
+      return m
     if len(args) == 1:
       xs = eng.iter_concrete(st, args[0])
     xs = [eng.need_int(st, a, node) for a in xs]
@@ -943,6 +957,8 @@ def call_builtin(eng, st, name, args, kwargs, node):
       return st.alloc(HList(items=sorted(xs)))
     raise Unsupported("sorted() on symbolic items")
   if name == "sum":
+    if isinstance(args[0], Opaque):
+      return Opaque("sum(" + args[0].why + ")")
     seq = as_iterable(eng, st, args[0], node)
     if seq[0] != "concrete":
       raise Unsupported("sum over symbolic sequence")
@@ -1638,6 +1654,8 @@ def comprehension(eng, st, node, kind):
     del st.pc[n0:]
     for ax in axioms:
       st.assume(z3.ForAll([j], ax))
+    if isinstance(elt, Opaque):
+      return Opaque("sequence of abstracted values (" + elt.why + ")")
     t = eng.value_type(st, elt)
     rep = _lambda_rep(t, elt, j)
     return st.alloc(HList(items=None, length=n, elem_t=t, rep=rep))
